@@ -7,6 +7,7 @@ import Proofs.C01Witness
 import Proofs.C01FramesCor
 import Proofs.C01Norm
 import Proofs.C01Ends
+import Proofs.C01Ret
 /-!
 # C01 — compiled execution preserves the meaning of the parsed program
 
@@ -363,5 +364,88 @@ example : ((Ends.executeAll (fun _ => 0) [.print 1 false [7], .fail] (Ends.initI
     (Ends.executeAll (fun _ => 0) [.print 1 false [7], .fail] (Ends.initImpl fun _ => [])).2 = .error ∧
     (Ends.implRun (fun _ => 0) [.print 0 true [1], .exit] (Ends.initImpl fun _ => [])).2 ≠ .error := by
   refine ⟨?_, ?_, ?_⟩ <;> decide
+
+/-! ## the value of a call by the way the callee is left: `return expr`, bare `return`, falling off the end -/
+
+/-- a bare `return` leaves the activation with the null value in EVERY world — whatever ran before (earlier calls and the
+values they returned are part of `w`, and do not matter) -/
+theorem bare_return_is_null (S : Sem) (n : Nat) (w : S.W) : exec S (n + 1) (.ret none) w = some (.ret S.nullV w) := by
+  simp [exec]
+
+/-- a statement that holds no `return expr` — its expressions and the calls in them are arbitrary — can leave the
+activation only with the null value -/
+theorem no_valued_return_leaves_with_null (S : Sem) (n : Nat) (s : Stmt) (w : S.W) (v : S.V) (w' : S.W)
+    (hs : s.NoValRet) (h : exec S n s w = some (.ret v w')) : v = S.nullV :=
+  exec_ret_null S n s w v w' hs h
+
+/-- **call_value_null_without_valued_return** — in the framed tree semantics a call of a function whose body holds no
+`return expr` evaluates to null, whatever the calls made by the body (`callf`, arbitrary) returned: a value returned to the
+callee never becomes the callee's own value (seeded change C01-q3 broke this for a bare `return`) -/
+theorem call_value_null_without_valued_return {B : Base} (FT : FunTable)
+    (callf : Nat → List B.S.V → List (AScope × Nat) → FW B → Option (B.S.V × FW B))
+    (k f : Nat) (vals : List B.S.V) (refs : List (AScope × Nat)) (fw : FW B) (fn : Fn) (r : B.S.V × FW B)
+    (hf : FT[f]? = some fn) (hb : fn.body.NoValRet) (h : callBody B FT callf k f vals refs fw = some r) : r.1 = B.S.nullV :=
+  callBody_null FT callf k f vals refs fw fn r hf hb h
+
+/-- the same for the call EXPRESSION of the framed semantics with any call-nesting fuel -/
+theorem call_expr_null_without_valued_return {B : Base} (FT : FunTable) (n f nsc : Nat) (args : List Expr)
+    (refs : List (AScope × Nat)) (fw : FW B) (fn : Fn) (v : B.S.V) (fw' : FW B)
+    (hf : FT[f]? = some fn) (hb : fn.body.NoValRet)
+    (h : eval (FS B FT (n + 1)) (.call f nsc args refs) fw = some (v, fw')) : v = B.S.nullV := by
+  rw [eval_call_frame] at h
+  cases hl : evalList (FS B FT (n + 1)) args fw with
+  | none => rw [hl] at h; cases h
+  | some r =>
+    rw [hl] at h
+    change (if r.1.length ≤ nsc then _ else none) = some (v, fw') at h
+    split at h
+    · exact callBody_null FT (callN B FT n) n f _ refs r.2 fn (v, fw') hf hb h
+    · simp at h
+
+/-- falling off the end: whenever the body of ANY function completes normally, the call evaluates to null -/
+theorem fall_off_the_end_is_null {B : Base} (FT : FunTable)
+    (callf : Nat → List B.S.V → List (AScope × Nat) → FW B → Option (B.S.V × FW B))
+    (k f : Nat) (vals : List B.S.V) (refs : List (AScope × Nat)) (fw : FW B) (fn : Fn) (fw2 : FW B)
+    (hf : FT[f]? = some fn) (hd : ¬(maxDepth ≤ fw.1.depth ∨ vals.length ≠ fn.numScalars ∨ fn.numArrays < refs.length))
+    (hex : exec (mkSem B callf) k fn.body
+      (⟨vals, refs.map (fun r => arrIdOf fw.1.larrs r.1 r.2) ++ (allocArrays B (fn.numArrays - refs.length) fw.2).1, fw.1.depth + 1⟩,
+        (allocArrays B (fn.numArrays - refs.length) fw.2).2) = some (.normal fw2)) :
+    (callBody B FT callf k f vals refs fw).map (·.1) = some B.S.nullV :=
+  callBody_fall_off FT callf k f vals refs fw fn fw2 hf hd hex
+
+/-- the VM with frames (`RBig`, `CallUser` as in vm.go): an activation whose code holds no `Return` instruction — only
+`ReturnNull`, or none at all — is left with null, whatever the nested activations of its `CallUser` instructions returned
+(their `.ret v` outcomes are consumed by `callRet`, which pushes `v` on the stack and goes on) -/
+theorem vm_activation_without_Return_is_null {B : Base} (FT : FunTable) (C : Code) (st : RSt B) (v : B.S.V) (s : List B.S.V) (w : B.S.W)
+    (hC : ∀ i ∈ C, i ≠ Instr.ret) (h : RBig B FT C st (.ret v s w)) : v = B.S.nullV :=
+  rbig_ret_null FT h hC v s w rfl
+
+/-- `shared_return_slot_fails` — ONE return slot for all activations, nulled at call start and read by every `return`
+(seeded change C01-q3): the run "start f, start g, g: return 9, f: return" makes f's call evaluate to 9, direct evaluation
+gives the uninitialised value -/
+theorem shared_return_slot_fails :
+    Ret.slotRun (none : Option Nat) none [.enter, .enter, .retVal (some 9), .retBare] = [some 9, some 9] ∧
+    Ret.spec (none : Option Nat) [.enter, .enter, .retVal (some 9), .retBare] = [some 9, none] := by
+  decide
+
+/-- … and it agrees with direct evaluation on every run in which no bare `return` follows a `return expr` of a call made by
+the same activation — which is why programs that never look at such a value (and the pinned tests) do not notice -/
+theorem shared_return_slot_agrees_otherwise {V : Type} (null : V) (t : List (Ret.Ev V)) (h : Ret.NoBareAfterValue false t) :
+    Ret.slotRun null null t = Ret.spec null t :=
+  Ret.slot_agrees null t false null (fun _ => rfl) h
+
+-- non-vacuity:  function g(x) { return x + 7 }   function f(x) { g(x); if (x) return }   BEGIN { print f(3) }  prints an empty line
+def retFT : FunTable := [⟨1, 0, .ret (some (.arith .add (.var .loc 0) (.num ⟨true, 7⟩)))⟩,
+  ⟨1, 0, .seq (.expr (.call 0 1 [.var .loc 0] [])) (.ifThen (.var .loc 0) (.ret none))⟩]
+example : (exec (FS (baseC 0) retFT 12) 10 (.print [.call 1 1 [.num ⟨true, 3⟩] []]) (topFrame (baseC 0), {})).map
+    (fun o => match o with | .normal fw => fw.2.out | _ => [1]) = some [10] := by decide
+example : (exec (FS (baseC 0) retFT 12) 10 (.print [.call 0 1 [.num ⟨true, 3⟩] []]) (topFrame (baseC 0), {})).map
+    (fun o => match o with | .normal fw => fw.2.out | _ => [1]) = some [49, 48, 10] := by decide
+example : ∀ fn, retFT[1]? = some fn → fn.body.NoValRet := by
+  intro fn h; simp [retFT] at h; subst h; simp [Stmt.NoValRet]
+example : ∀ i ∈ cStmt 0 0 (Stmt.seq (.expr (.call 0 1 [.var .loc 0] [])) (.ifThen (.var .loc 0) (.ret none))), i ≠ Instr.ret := by
+  decide
+example : Ret.NoBareAfterValue false ([.enter, .retBare, .enter, .enter, .fallOff, .retVal 5] : List (Ret.Ev Nat)) := by
+  simp [Ret.NoBareAfterValue]
 
 end GoawkModel.C01.Props
